@@ -127,11 +127,13 @@ theorem C02_session_outlives_its_connections (as : List Act) :
   intro id hid
   exact run_tracked {} as (fun _ => False) hg (fun _ hf => hf.elim) id (Or.inr hid)
 
-/-- the code has that policy: the server's session object is closed in one place, on the accept loop's own path after a
-    fatal accept error; the client's in `discard` (a session found dead) and `Shutdown` (regenerated) -/
+/-- the code has that policy: the server's session object is closed on the accept loop's own path after a fatal accept
+    error and, since repair 7014fd1, by the carrier watch / carrier writer when the carrier itself is lost (never on a
+    goroutine of a logical connection); the client's in `discard` (a session found dead) and `Shutdown` (regenerated) -/
 theorem C02_session_close_sites :
     Gen.sessionCloseSites = ["client/upstream/upstream.go Shutdown ul.session:go",
-      "client/upstream/upstream.go discard ul.session:own", "server/communicator.go acceptStream ch.session:own"] ∧
+      "client/upstream/upstream.go discard ul.session:own", "server/communicator.go Write session:own",
+      "server/communicator.go acceptStream ch.session:own", "server/communicator.go watch session:own"] ∧
     serverClosesFromStream = false := by decide
 
 /-- witness: a server that releases the session with its last logical connection loses the connection opened while that
